@@ -227,25 +227,30 @@ Definition kind_of_ty (t : T.ty) : option kind :=
   | _ => None
   end.
 
+(* two name prefix types, neither below the other *)
+Definition prefix_disj (a b : T.ty) : bool :=
+  match a, b with
+  | T.TConst x, T.TConst y =>
+      negb (T.is_base_const x) && negb (T.is_base_const y) &&
+      negb (T.has_prefix (x ++ [T.slash]) (y ++ [T.slash])) &&
+      negb (T.has_prefix (y ++ [T.slash]) (x ++ [T.slash]))
+  | _, _ => false
+  end.
+
+Definition kinds_disj (a b : T.ty) : bool :=
+  match kind_of_ty a, kind_of_ty b with
+  | Some ka, Some kb => negb (kind_eqb ka kb) || prefix_disj a b
+  | _, _ => false
+  end.
+
 (* two non-union types without a common member *)
 Definition disj_atom (a b : T.ty) : bool :=
-  match a, b with
-  | T.TSingleton c, _ => negb (T.has_type b c)
-  | _, T.TSingleton c => negb (T.has_type a c)
-  | _, _ =>
-      match kind_of_ty a, kind_of_ty b with
-      | Some ka, Some kb =>
-          negb (kind_eqb ka kb) ||
-          match a, b with
-          | T.TConst x, T.TConst y =>
-              (* two name prefix types, neither below the other *)
-              negb (T.is_base_const x) && negb (T.is_base_const y) &&
-              negb (T.has_prefix (x ++ [T.slash]) (y ++ [T.slash])) &&
-              negb (T.has_prefix (y ++ [T.slash]) (x ++ [T.slash]))
-          | _, _ => false
-          end
-      | _, _ => false
-      end
+  match a with
+  | T.TSingleton c => negb (T.has_type b c)
+  | _ => match b with
+         | T.TSingleton c => negb (T.has_type a c)
+         | _ => kinds_disj a b
+         end
   end.
 
 Definition members (t : T.ty) : list T.ty := match t with T.TUnion xs => xs | _ => [t] end.
